@@ -43,8 +43,8 @@ def image_coq(im, parent_rsteps):
 def modelable(inst):
     if inst.get("concurrent") or not inst.get("steps"):
         return False
-    if inst.get("op") in ("mergeself",) or not inst.get("isorder", True):
-        return False  # replacement inside the out-of-order directory: direct oracle only (see finding C03-selflogdir)
+    # replacements inside the out-of-order directory (merge-self, IsOrder=false) are compared with the model as well: file
+    # ids are per directory, the log names ids of the out-of-order directory, recovery works on that directory (6935e28)
     for s in inst["steps"]:
         if s["k"] in ("other", "mkdir"):
             return False
